@@ -191,7 +191,20 @@ func nameClassV(v ssa.Value, depth int, seen map[ssa.Value]bool) (string, bool, 
 			}
 		}
 	case *ssa.Extract:
+		if lk, ok := x.Tuple.(*ssa.Lookup); ok && x.Index == 0 {
+			if g := globalOfLoad(lk.X); g != nil && curProg != nil {
+				if _, ok := curProg.stringMapRows(g); ok {
+					return "const", false, "value of the constant package-level table " + g.Name()
+				}
+			}
+		}
 		return nameClass(x.Tuple, depth+1)
+	case *ssa.Lookup:
+		if g := globalOfLoad(x.X); g != nil && curProg != nil && !x.CommaOk {
+			if _, ok := curProg.stringMapRows(g); ok {
+				return "const", false, "value of the constant package-level table " + g.Name()
+			}
+		}
 	}
 	return "unknown:" + sk(v), true, "unrecognised origin"
 }
